@@ -176,8 +176,32 @@ def do_matrix(keys):
     return 0
 
 
+def do_table():
+    print("| id | change (independently written) | needs | demonstration clean / changed | suite with change | caught by (quick tier) |")
+    print("|---|---|---|---|---|---|")
+    for key in sorted(CAT):
+        mp = os.path.join(VERIF, "seeded", key, "meta.json")
+        if not os.path.exists(mp):
+            continue
+        m = json.load(open(mp))
+        c = m.get("confirmation", {})
+        demo = "%s / %s" % ("pass" if c.get("demo_clean_rc") == [0, 0] else c.get("demo_clean_rc"), "fail" if all(c.get("demo_changed_rc") or [0]) else c.get("demo_changed_rc"))
+        suite = "%s/3262" % c.get("suite_stable_passed", "?")
+        rc = c.get("recheck")
+        if rc:
+            suite += "; %d re-run alone: %d pass" % (rc["rerun"], rc["passed"])
+        chk = m.get("checks_against_repo", {})
+        caught = ", ".join(chk.get("caught_by", [])) or "-"
+        missed = [k for k, v in (chk.get("results") or {}).items() if v["exit"] != 1]
+        if missed:
+            caught += " (not: %s)" % ", ".join(missed)
+        print("| %s | %s | %s | %s | %s | %s |" % (key, m["change"].split(" (subsumed")[0][:140], m["needs_to_manifest"][:150], demo, suite, caught))
+
+
 if __name__ == "__main__":
-    if sys.argv[1] == "import":
+    if sys.argv[1] == "table":
+        do_table()
+    elif sys.argv[1] == "import":
         do_import()
     else:
         sys.exit(do_matrix(sys.argv[2:]))
